@@ -1,50 +1,85 @@
-import SciVerif.Model.NetFine
+import SciVerif.Model.NetPorts
 import SciVerif.Lemmas.Net
-/-! Invariant and deadlock freedom of the network model at the granularity of channel operations. -/
-namespace SciVerif.NetFine
+/-! Invariant, deadlock freedom and finiteness of the network model at the granularity of channel operations. -/
+namespace SciVerif.NetPorts
 open SciVerif.Net
 
 variable {n : Nat}
 
+theorem sender_lt (net : Net n) (w : Fin n) (i : Nat) (v : Fin n) (h : sender net w i = some v) :
+    i < (net.ins w).length := by
+  unfold sender at h
+  exact (List.getElem?_eq_some_iff.1 h).1
+
+theorem sender_of_lt (net : Net n) (w : Fin n) (i : Nat) (h : i < (net.ins w).length) :
+    ∃ v, sender net w i = some v := ⟨(net.ins w)[i], by unfold sender; exact List.getElem?_eq_getElem h⟩
+
+theorem sender_mem (net : Net n) (w : Fin n) (i : Nat) (v : Fin n) (h : sender net w i = some v) : v ∈ net.ins w := by
+  unfold sender at h
+  exact List.mem_of_getElem? h
+
+theorem mem_conns (net : Net n) (v w : Fin n) (i : Nat) : (w, i) ∈ conns net v ↔ sender net w i = some v := by
+  unfold conns
+  simp only [List.mem_flatMap, List.mem_map, List.mem_filter, List.mem_range, List.mem_finRange, true_and,
+    Prod.mk.injEq, beq_iff_eq]
+  constructor
+  · rintro ⟨w', i', ⟨_, hs⟩, rfl, rfl⟩; exact hs
+  · intro h; exact ⟨w, i, ⟨sender_lt net w i v h, h⟩, rfl, rfl⟩
+
+theorem mem_zipIdx (net : Net n) (v u : Fin n) (i : Nat) : (u, i) ∈ (net.ins v).zipIdx ↔ sender net v i = some u := by
+  unfold sender
+  rw [List.mem_zipIdx_iff_getElem?]
+
 structure FInv (net : Net n) (N : Nat) (s : FSt n) : Prop where
   fc  : ∀ v, s.f v ≤ s.c v
   cN  : ∀ v, s.c v ≤ N
-  sf  : ∀ v w, v ∈ net.ins w → s.f v ≤ s.s v w ∧ s.s v w ≤ s.f v + 1 ∧ s.s v w ≤ s.c v
-  rc  : ∀ u w, u ∈ net.ins w → s.c w ≤ s.r u w ∧ s.r u w ≤ s.c w + 1 ∧ s.r u w ≤ s.s u w
-  cap : ∀ u w, u ∈ net.ins w → s.s u w ≤ s.r u w + net.B
+  sf  : ∀ w i v, sender net w i = some v → s.f v ≤ s.s w i ∧ s.s w i ≤ s.f v + 1 ∧ s.s w i ≤ s.c v
+  rc  : ∀ w i, i < (net.ins w).length → s.c w ≤ s.r w i ∧ s.r w i ≤ s.c w + 1 ∧ s.r w i ≤ s.s w i
+  cap : ∀ w i, i < (net.ins w).length → s.s w i ≤ s.r w i + net.B
   tm  : ∀ v, s.term v = true → s.c v = N ∧ s.f v = N
 
 theorem finv_init (net : Net n) (N : Nat) : FInv net N (finit n) :=
-  ⟨fun _ => Nat.le_refl _, fun _ => Nat.zero_le _, fun _ _ _ => ⟨Nat.le_refl _, Nat.zero_le _, Nat.le_refl _⟩,
+  ⟨fun _ => Nat.le_refl _, fun _ => Nat.zero_le _, fun _ _ _ _ => ⟨Nat.le_refl _, Nat.zero_le _, Nat.le_refl _⟩,
    fun _ _ _ => ⟨Nat.le_refl _, Nat.zero_le _, Nat.le_refl _⟩, fun _ _ _ => Nat.zero_le _,
    fun _ h => by simp [finit] at h⟩
 
-theorem upd2_same (g : Fin n → Fin n → Nat) (a b : Fin n) (x : Nat) : upd2 g a b x a b = x := by simp [upd2]
-theorem upd2_other (g : Fin n → Fin n → Nat) (a b a' b' : Fin n) (x : Nat) (h : ¬(a' = a ∧ b' = b)) :
-    upd2 g a b x a' b' = g a' b' := by simp [upd2, h]
+theorem upd2_same (g : Fin n → Nat → Nat) (a : Fin n) (i x : Nat) : upd2 g a i x a i = x := by simp [upd2]
+theorem upd2_other (g : Fin n → Nat → Nat) (a a' : Fin n) (i i' x : Nat) (h : ¬(a' = a ∧ i' = i)) :
+    upd2 g a i x a' i' = g a' i' := by simp [upd2, h]
+
+theorem canSend_iff (net : Net n) (s : FSt n) (w : Fin n) (i : Nat) (v : Fin n) (h : sender net w i = some v) :
+    canSend net s w i ↔ (s.f v < s.c v ∧ s.s w i = s.f v ∧ s.s w i < s.r w i + net.B) := by
+  unfold canSend; rw [h]
+
+theorem canSend_sender (net : Net n) (s : FSt n) (w : Fin n) (i : Nat) (h : canSend net s w i) :
+    ∃ v, sender net w i = some v := by
+  unfold canSend at h
+  cases hs : sender net w i with
+  | none => rw [hs] at h; exact absurd h (by simp)
+  | some v => exact ⟨v, rfl⟩
 
 theorem fstep_inv (net : Net n) (N : Nat) (hbal : balanced net N) (s s' : FSt n) (l : FLbl n)
     (h : FInv net N s) (hs : fstep net s l = some s') : FInv net N s' := by
   cases l with
-  | recv w u =>
+  | recv w i =>
     simp only [fstep] at hs
     split at hs
     · rename_i hg
       simp only [Option.some.injEq] at hs; subst hs
-      obtain ⟨hu, _, hrc, hrs⟩ := hg
+      obtain ⟨hi, _, hrc, hrs⟩ := hg
       refine ⟨h.fc, h.cN, h.sf, ?_, ?_, h.tm⟩
-      · intro u' w' hu'
-        by_cases he : u' = u ∧ w' = w
+      · intro w' i' hi'
+        by_cases he : w' = w ∧ i' = i
         · obtain ⟨rfl, rfl⟩ := he
           simp only [upd2_same]
           omega
-        · simp only [upd2_other _ _ _ _ _ _ he]; exact h.rc u' w' hu'
-      · intro u' w' hu'
-        by_cases he : u' = u ∧ w' = w
+        · simp only [upd2_other _ _ _ _ _ _ he]; exact h.rc w' i' hi'
+      · intro w' i' hi'
+        by_cases he : w' = w ∧ i' = i
         · obtain ⟨rfl, rfl⟩ := he
           simp only [upd2_same]
-          have := h.cap u' w' hu'; omega
-        · simp only [upd2_other _ _ _ _ _ _ he]; exact h.cap u' w' hu'
+          have := h.cap w' i' hi'; omega
+        · simp only [upd2_other _ _ _ _ _ _ he]; exact h.cap w' i' hi'
     · simp at hs
   | create v =>
     simp only [fstep] at hs
@@ -57,15 +92,16 @@ theorem fstep_inv (net : Net n) (N : Nat) (hbal : balanced net N) (s s' : FSt n)
         · rename_i hsrc
           have := hbal v hsrc; omega
         · rename_i hne
-          cases hi : net.ins v with
-          | nil => simp [hi] at hne
-          | cons u us =>
-            have hu : u ∈ net.ins v := by rw [hi]; exact List.mem_cons_self ..
-            have h1 := hg u hu
-            have h2 := h.rc u v hu
-            have h3 := h.sf u v hu
-            have h4 := h.cN u
-            omega
+          have hlen : 0 < (net.ins v).length := by
+            cases hi : net.ins v with
+            | nil => simp [hi] at hne
+            | cons u us => simp
+          obtain ⟨u, hu⟩ := sender_of_lt net v 0 hlen
+          have h1 := hg 0 hlen
+          have h2 := h.rc v 0 hlen
+          have h3 := h.sf v 0 u hu
+          have h4 := h.cN u
+          omega
       refine ⟨?_, ?_, ?_, ?_, h.cap, ?_⟩
       · intro w
         by_cases hw : w = v
@@ -75,50 +111,54 @@ theorem fstep_inv (net : Net n) (N : Nat) (hbal : balanced net N) (s s' : FSt n)
         by_cases hw : w = v
         · subst hw; simp only [upd_same]; omega
         · simp only [upd_other _ _ _ _ hw]; exact h.cN w
-      · intro x w hx
-        have := h.sf x w hx
+      · intro w i x hx
+        have := h.sf w i x hx
         by_cases hw : x = v
         · subst hw; simp only [upd_same]; omega
         · simp only [upd_other _ _ _ _ hw]; exact this
-      · intro u w hu
-        have := h.rc u w hu
+      · intro w i hi
+        have := h.rc w i hi
         by_cases hw : w = v
         · subst hw
           simp only [upd_same]
           split at hg
           · rename_i hsrc
             have : net.ins w = [] := List.isEmpty_iff.1 hsrc
-            rw [this] at hu; simp at hu
-          · have := hg u hu; omega
+            rw [this] at hi; simp at hi
+          · have := hg i hi; omega
         · simp only [upd_other _ _ _ _ hw]; exact this
       · intro w hw
         have hne : w ≠ v := by intro he; subst he; simp [hnt] at hw
         simp only [upd_other _ _ _ _ hne]
         exact h.tm w hw
     · simp at hs
-  | send v w =>
+  | send w i =>
     simp only [fstep] at hs
     split at hs
     · rename_i hg
       simp only [Option.some.injEq] at hs; subst hs
-      obtain ⟨hv, hfc, hsf, hroom⟩ := hg
+      obtain ⟨v, hv⟩ := canSend_sender net s w i hg
+      obtain ⟨hfc, hsf, hroom⟩ := (canSend_iff net s w i v hv).1 hg
+      have hi := sender_lt net w i v hv
       refine ⟨h.fc, h.cN, ?_, ?_, ?_, h.tm⟩
-      · intro v' w' hv'
-        by_cases he : v' = v ∧ w' = w
+      · intro w' i' x hx
+        by_cases he : w' = w ∧ i' = i
         · obtain ⟨rfl, rfl⟩ := he
+          have : x = v := by rw [hv] at hx; exact (Option.some.inj hx).symm
+          subst this
           simp only [upd2_same]; omega
-        · simp only [upd2_other _ _ _ _ _ _ he]; exact h.sf v' w' hv'
-      · intro v' w' hv'
-        have := h.rc v' w' hv'
-        by_cases he : v' = v ∧ w' = w
+        · simp only [upd2_other _ _ _ _ _ _ he]; exact h.sf w' i' x hx
+      · intro w' i' hi'
+        have := h.rc w' i' hi'
+        by_cases he : w' = w ∧ i' = i
         · obtain ⟨rfl, rfl⟩ := he
           simp only [upd2_same]; omega
         · simp only [upd2_other _ _ _ _ _ _ he]; exact this
-      · intro v' w' hv'
-        by_cases he : v' = v ∧ w' = w
+      · intro w' i' hi'
+        by_cases he : w' = w ∧ i' = i
         · obtain ⟨rfl, rfl⟩ := he
           simp only [upd2_same]; omega
-        · simp only [upd2_other _ _ _ _ _ _ he]; exact h.cap v' w' hv'
+        · simp only [upd2_other _ _ _ _ _ _ he]; exact h.cap w' i' hi'
     · simp at hs
   | forward v =>
     simp only [fstep] at hs
@@ -131,12 +171,13 @@ theorem fstep_inv (net : Net n) (N : Nat) (hbal : balanced net N) (s s' : FSt n)
         by_cases hw : w = v
         · subst hw; simp only [upd_same]; omega
         · simp only [upd_other _ _ _ _ hw]; exact h.fc w
-      · intro x w hx
-        have := h.sf x w hx
+      · intro w i x hx
+        have := h.sf w i x hx
         by_cases hw : x = v
         · subst hw
           simp only [upd_same]
-          have := hall w ((mem_outs net x w).2 hx)
+          have := hall (w, i) ((mem_conns net x w i).2 hx)
+          simp only at this
           omega
         · simp only [upd_other _ _ _ _ hw]; exact this
       · intro w hw
@@ -159,9 +200,11 @@ theorem fstep_inv (net : Net n) (N : Nat) (hbal : balanced net N) (s s' : FSt n)
         split at hg
         · rename_i hsrc
           have := hbal w hsrc; omega
-        · obtain ⟨u, hu, hut, hrs, hrc⟩ := hg
+        · obtain ⟨⟨u, i⟩, hp, hut, hrs, hrc⟩ := hg
+          have hu := (mem_zipIdx net w u i).1 hp
           have := h.tm u hut
-          have := h.sf u w hu
+          have := h.sf w i u hu
+          simp only at hrs hrc
           omega
       · simp only [upd_other _ _ _ _ he] at hw
         exact h.tm w hw
@@ -195,32 +238,34 @@ theorem fno_stuck (net : Net n) (N : Nat) (hbal : balanced net N) (hac : acyclic
       | false =>
         exfalso
         by_cases hlt : s.f v < s.c v
-        · -- the oldest task waits to be sent on: some consumer has not got it and its channel is full
+        · -- the oldest task waits to be sent on: on some connection it has not been sent and the channel is full
           have hf := hst (.forward v)
           simp only [fstep] at hf
           split at hf
           · simp at hf
           · rename_i hnf
             simp only [canForward, hlt, true_and] at hnf
-            have : ∃ w ∈ outs net v, s.s v w ≠ s.f v + 1 := by
+            have : ∃ p ∈ conns net v, s.s p.1 p.2 ≠ s.f v + 1 := by
               apply Classical.byContradiction
               intro hno
               apply hnf
-              intro w hw
+              intro p hp
               apply Classical.byContradiction
               intro hne
-              exact hno ⟨w, hw, hne⟩
-            obtain ⟨w, hw, hne⟩ := this
-            have hvw : v ∈ net.ins w := (mem_outs net v w).1 hw
-            have hsf := h.sf v w hvw
-            have hsv : s.s v w = s.f v := by omega
-            have hsend := hst (.send v w)
+              exact hno ⟨p, hp, hne⟩
+            obtain ⟨⟨w, i⟩, hp, hne⟩ := this
+            simp only at hne
+            have hvw : sender net w i = some v := (mem_conns net v w i).1 hp
+            have hi := sender_lt net w i v hvw
+            have hsf := h.sf w i v hvw
+            have hsv : s.s w i = s.f v := by omega
+            have hsend := hst (.send w i)
             simp only [fstep] at hsend
             split at hsend
             · simp at hsend
             · rename_i hns
-              simp only [canSend, hvw, hlt, hsv, true_and] at hns
-              have hrc := h.rc v w hvw
+              rw [canSend_iff net s w i v hvw] at hns
+              have hrc := h.rc w i hi
               have hwt : s.term w = true := ihk (s.f w) (by have := h.fc w; omega) _ w rfl rfl
               have := h.tm w hwt
               have := h.cN v
@@ -245,60 +290,61 @@ theorem fno_stuck (net : Net n) (N : Nat) (hbal : balanced net N) (hac : acyclic
               · simp only [hsrc] at hnc hntm
                 simp only [Bool.false_eq_true, if_false] at hnc hntm
                 -- some in-port has not been read in this round, and nothing is there to read
-                have : ∃ u ∈ net.ins v, s.r u v ≠ s.c v + 1 := by
+                have : ∃ i, i < (net.ins v).length ∧ s.r v i ≠ s.c v + 1 := by
                   apply Classical.byContradiction
                   intro hno
                   apply hnc
-                  intro u hu
+                  intro i hi
                   apply Classical.byContradiction
                   intro hne
-                  exact hno ⟨u, hu, hne⟩
-                obtain ⟨u, hu, hne⟩ := this
-                have hrc := h.rc u v hu
-                have hru : s.r u v = s.c v := by omega
-                have hrecv := hst (.recv v u)
+                  exact hno ⟨i, hi, hne⟩
+                obtain ⟨i, hi, hne⟩ := this
+                have hrc := h.rc v i hi
+                have hru : s.r v i = s.c v := by omega
+                have hrecv := hst (.recv v i)
                 simp only [fstep] at hrecv
                 split at hrecv
                 · simp at hrecv
                 · rename_i hnr
-                  simp only [canRecv, hu, hterm, hru, true_and] at hnr
-                  have hsf := h.sf u v hu
-                  have hsu : s.s u v = s.c v := by omega
+                  simp only [canRecv, hi, hterm, hru, true_and] at hnr
+                  obtain ⟨u, hu⟩ := sender_of_lt net v i hi
+                  have hsf := h.sf v i u hu
+                  have hsu : s.s v i = s.c v := by omega
                   have hfu : s.f u ≤ s.f v := by omega
                   have hut : s.term u = true := by
                     by_cases hlt2 : s.f u < s.f v
                     · exact ihk (s.f u) (by omega) _ u rfl rfl
-                    · exact ihr u.val (by have := hac v u hu; omega) u (by omega) rfl
-                  exact hntm ⟨u, hu, hut, by omega, by omega⟩
+                    · exact ihr u.val (by have := hac v u (sender_mem net v i u hu); omega) u (by omega) rfl
+                  exact hntm ⟨(u, i), (mem_zipIdx net v u i).2 hu, hut, by simp only; omega, by simp only; omega⟩
 
 /-! ### arbitrary stream lengths: the only way to get stuck -/
 
 structure FInv0 (net : Net n) (s : FSt n) : Prop where
   fc  : ∀ v, s.f v ≤ s.c v
-  sf  : ∀ v w, v ∈ net.ins w → s.f v ≤ s.s v w ∧ s.s v w ≤ s.f v + 1 ∧ s.s v w ≤ s.c v
-  rc  : ∀ u w, u ∈ net.ins w → s.c w ≤ s.r u w ∧ s.r u w ≤ s.c w + 1 ∧ s.r u w ≤ s.s u w
+  sf  : ∀ w i v, sender net w i = some v → s.f v ≤ s.s w i ∧ s.s w i ≤ s.f v + 1 ∧ s.s w i ≤ s.c v
+  rc  : ∀ w i, i < (net.ins w).length → s.c w ≤ s.r w i ∧ s.r w i ≤ s.c w + 1 ∧ s.r w i ≤ s.s w i
   src : ∀ v, (net.ins v).isEmpty = true → s.c v ≤ net.src v
 
 theorem finv0_init (net : Net n) : FInv0 net (finit n) :=
-  ⟨fun _ => Nat.le_refl _, fun _ _ _ => ⟨Nat.le_refl _, Nat.zero_le _, Nat.le_refl _⟩,
+  ⟨fun _ => Nat.le_refl _, fun _ _ _ _ => ⟨Nat.le_refl _, Nat.zero_le _, Nat.le_refl _⟩,
    fun _ _ _ => ⟨Nat.le_refl _, Nat.zero_le _, Nat.le_refl _⟩, fun _ _ => Nat.zero_le _⟩
 
 theorem fstep_inv0 (net : Net n) (s s' : FSt n) (l : FLbl n) (h : FInv0 net s) (hs : fstep net s l = some s') :
     FInv0 net s' := by
   cases l with
-  | recv w u =>
+  | recv w i =>
     simp only [fstep] at hs
     split at hs
     · rename_i hg
       simp only [Option.some.injEq] at hs; subst hs
-      obtain ⟨hu, _, hrc, hrs⟩ := hg
+      obtain ⟨hi, _, hrc, hrs⟩ := hg
       refine ⟨h.fc, h.sf, ?_, h.src⟩
-      intro u' w' hu'
-      by_cases he : u' = u ∧ w' = w
+      intro w' i' hi'
+      by_cases he : w' = w ∧ i' = i
       · obtain ⟨rfl, rfl⟩ := he
         simp only [upd2_same]
         omega
-      · simp only [upd2_other _ _ _ _ _ _ he]; exact h.rc u' w' hu'
+      · simp only [upd2_other _ _ _ _ _ _ he]; exact h.rc w' i' hi'
     · simp at hs
   | create v =>
     simp only [fstep] at hs
@@ -311,21 +357,21 @@ theorem fstep_inv0 (net : Net n) (s s' : FSt n) (l : FLbl n) (h : FInv0 net s) (
         by_cases hw : w = v
         · subst hw; simp only [upd_same]; have := h.fc w; omega
         · simp only [upd_other _ _ _ _ hw]; exact h.fc w
-      · intro x w hx
-        have := h.sf x w hx
+      · intro w i x hx
+        have := h.sf w i x hx
         by_cases hw : x = v
         · subst hw; simp only [upd_same]; omega
         · simp only [upd_other _ _ _ _ hw]; exact this
-      · intro u w hu
-        have := h.rc u w hu
+      · intro w i hi
+        have := h.rc w i hi
         by_cases hw : w = v
         · subst hw
           simp only [upd_same]
           split at hg
           · rename_i hsrc
             have : net.ins w = [] := List.isEmpty_iff.1 hsrc
-            rw [this] at hu; simp at hu
-          · have := hg u hu; omega
+            rw [this] at hi; simp at hi
+          · have := hg i hi; omega
         · simp only [upd_other _ _ _ _ hw]; exact this
       · intro w hw
         by_cases he : w = v
@@ -335,21 +381,24 @@ theorem fstep_inv0 (net : Net n) (s s' : FSt n) (l : FLbl n) (h : FInv0 net s) (
           omega
         · simp only [upd_other _ _ _ _ he]; exact h.src w hw
     · simp at hs
-  | send v w =>
+  | send w i =>
     simp only [fstep] at hs
     split at hs
     · rename_i hg
       simp only [Option.some.injEq] at hs; subst hs
-      obtain ⟨hv, hfc, hsf, hroom⟩ := hg
+      obtain ⟨v, hv⟩ := canSend_sender net s w i hg
+      obtain ⟨hfc, hsf, hroom⟩ := (canSend_iff net s w i v hv).1 hg
       refine ⟨h.fc, ?_, ?_, h.src⟩
-      · intro v' w' hv'
-        by_cases he : v' = v ∧ w' = w
+      · intro w' i' x hx
+        by_cases he : w' = w ∧ i' = i
         · obtain ⟨rfl, rfl⟩ := he
+          have : x = v := by rw [hv] at hx; exact (Option.some.inj hx).symm
+          subst this
           simp only [upd2_same]; omega
-        · simp only [upd2_other _ _ _ _ _ _ he]; exact h.sf v' w' hv'
-      · intro v' w' hv'
-        have := h.rc v' w' hv'
-        by_cases he : v' = v ∧ w' = w
+        · simp only [upd2_other _ _ _ _ _ _ he]; exact h.sf w' i' x hx
+      · intro w' i' hi'
+        have := h.rc w' i' hi'
+        by_cases he : w' = w ∧ i' = i
         · obtain ⟨rfl, rfl⟩ := he
           simp only [upd2_same]; omega
         · simp only [upd2_other _ _ _ _ _ _ he]; exact this
@@ -365,12 +414,13 @@ theorem fstep_inv0 (net : Net n) (s s' : FSt n) (l : FLbl n) (h : FInv0 net s) (
         by_cases hw : w = v
         · subst hw; simp only [upd_same]; omega
         · simp only [upd_other _ _ _ _ hw]; exact h.fc w
-      · intro x w hx
-        have := h.sf x w hx
+      · intro w i x hx
+        have := h.sf w i x hx
         by_cases hw : x = v
         · subst hw
           simp only [upd_same]
-          have := hall w ((mem_outs net x w).2 hx)
+          have := hall (w, i) ((mem_conns net x w i).2 hx)
+          simp only at this
           omega
         · simp only [upd_other _ _ _ _ hw]; exact this
     · simp at hs
@@ -394,13 +444,13 @@ theorem frun_inv0 (net : Net n) (ls : List (FLbl n)) :
       exact ih s1 s' (fstep_inv0 net s s1 l h h1) hr
 
 /-- whatever the stream lengths: if nothing can move and some process has not returned, then some unreturned
-process `v` is blocked sending to a consumer `w` that has returned and left at least `B` of `v`'s items unread -/
+process is blocked sending on a connection whose reader has returned and left at least `B` of its items unread -/
 theorem fstuck_root_cause (net : Net n) (hac : acyclic net) (hB : 1 ≤ net.B) (s : FSt n) (h : FInv0 net s)
     (hst : fstuck net s) :
     ∀ v0, s.term v0 = false →
-      ∃ v w, v ∈ net.ins w ∧ s.term v = false ∧ s.term w = true ∧ s.r v w + net.B ≤ s.s v w := by
+      ∃ v w i, sender net w i = some v ∧ s.term v = false ∧ s.term w = true ∧ s.r w i + net.B ≤ s.s w i := by
   suffices H : ∀ (k r : Nat) (v : Fin n), s.f v = k → v.val = r → s.term v = false →
-      ∃ v w, v ∈ net.ins w ∧ s.term v = false ∧ s.term w = true ∧ s.r v w + net.B ≤ s.s v w from
+      ∃ v w i, sender net w i = some v ∧ s.term v = false ∧ s.term w = true ∧ s.r w i + net.B ≤ s.s w i from
     fun v hv => H _ _ v rfl rfl hv
   intro k
   induction k using Nat.strongRecOn with
@@ -416,27 +466,29 @@ theorem fstuck_root_cause (net : Net n) (hac : acyclic net) (hB : 1 ≤ net.B) (
         · simp at hf
         · rename_i hnf
           simp only [canForward, hlt, true_and] at hnf
-          have : ∃ w ∈ outs net v, s.s v w ≠ s.f v + 1 := by
+          have : ∃ p ∈ conns net v, s.s p.1 p.2 ≠ s.f v + 1 := by
             apply Classical.byContradiction
             intro hno
             apply hnf
-            intro w hw
+            intro p hp
             apply Classical.byContradiction
             intro hne
-            exact hno ⟨w, hw, hne⟩
-          obtain ⟨w, hw, hne⟩ := this
-          have hvw : v ∈ net.ins w := (mem_outs net v w).1 hw
-          have hsf := h.sf v w hvw
-          have hsv : s.s v w = s.f v := by omega
-          have hsend := hst (.send v w)
+            exact hno ⟨p, hp, hne⟩
+          obtain ⟨⟨w, i⟩, hp, hne⟩ := this
+          simp only at hne
+          have hvw : sender net w i = some v := (mem_conns net v w i).1 hp
+          have hi := sender_lt net w i v hvw
+          have hsf := h.sf w i v hvw
+          have hsv : s.s w i = s.f v := by omega
+          have hsend := hst (.send w i)
           simp only [fstep] at hsend
           split at hsend
           · simp at hsend
           · rename_i hns
-            simp only [canSend, hvw, hlt, hsv, true_and] at hns
-            have hrc := h.rc v w hvw
+            rw [canSend_iff net s w i v hvw] at hns
+            have hrc := h.rc w i hi
             cases hwt : s.term w with
-            | true => exact ⟨v, w, hvw, hterm, hwt, by omega⟩
+            | true => exact ⟨v, w, i, hvw, hterm, hwt, by omega⟩
             | false => exact ihk (s.f w) (by have := h.fc w; omega) _ w rfl rfl hwt
       · have hcf : s.c v = s.f v := by have := h.fc v; omega
         have hc := hst (.create v)
@@ -456,80 +508,112 @@ theorem fstuck_root_cause (net : Net n) (hac : acyclic net) (hB : 1 ≤ net.B) (
               omega
             · simp only [hsrc] at hnc hntm
               simp only [Bool.false_eq_true, if_false] at hnc hntm
-              have : ∃ u ∈ net.ins v, s.r u v ≠ s.c v + 1 := by
+              have : ∃ i, i < (net.ins v).length ∧ s.r v i ≠ s.c v + 1 := by
                 apply Classical.byContradiction
                 intro hno
                 apply hnc
-                intro u hu
+                intro i hi
                 apply Classical.byContradiction
                 intro hne
-                exact hno ⟨u, hu, hne⟩
-              obtain ⟨u, hu, hne⟩ := this
-              have hrc := h.rc u v hu
-              have hru : s.r u v = s.c v := by omega
-              have hrecv := hst (.recv v u)
+                exact hno ⟨i, hi, hne⟩
+              obtain ⟨i, hi, hne⟩ := this
+              have hrc := h.rc v i hi
+              have hru : s.r v i = s.c v := by omega
+              have hrecv := hst (.recv v i)
               simp only [fstep] at hrecv
               split at hrecv
               · simp at hrecv
               · rename_i hnr
-                simp only [canRecv, hu, hterm, hru, true_and] at hnr
-                have hsf := h.sf u v hu
-                have hsu : s.s u v = s.c v := by omega
+                simp only [canRecv, hi, hterm, hru, true_and] at hnr
+                obtain ⟨u, hu⟩ := sender_of_lt net v i hi
+                have hsf := h.sf v i u hu
+                have hsu : s.s v i = s.c v := by omega
                 cases hut : s.term u with
-                | true => exact absurd ⟨u, hu, hut, by omega, by omega⟩ hntm
+                | true =>
+                  exact absurd ⟨(u, i), (mem_zipIdx net v u i).2 hu, hut, by simp only; omega, by simp only; omega⟩ hntm
                 | false =>
                   by_cases hlt2 : s.f u < s.f v
                   · exact ihk (s.f u) (by omega) _ u rfl rfl hut
-                  · exact ihr u.val (by have := hac v u hu; omega) u (by omega) rfl hut
+                  · exact ihr u.val (by have := hac v u (sender_mem net v i u hu); omega) u (by omega) rfl hut
 
 /-! ### every run is finite -/
 
+theorem sum_updN (l : List Nat) (hnd : l.Nodup) (g g' : Nat → Nat) (i : Nat) (hv : i ∈ l)
+    (h1 : g' i + 1 = g i) (h2 : ∀ j, j ≠ i → g' j = g j) : (l.map g').sum + 1 = (l.map g).sum := by
+  induction l with
+  | nil => simp at hv
+  | cons x xs ih =>
+    have hnd' := List.nodup_cons.1 hnd
+    by_cases hx : x = i
+    · subst hx
+      have hsame : xs.map g' = xs.map g := by
+        apply List.map_congr_left
+        intro w hw
+        exact h2 w (fun e => hnd'.1 (e ▸ hw))
+      simp only [List.map_cons, List.sum_cons, hsame]
+      omega
+    · have hvx : i ∈ xs := by
+        rcases List.mem_cons.1 hv with e | e
+        · exact absurd e.symm hx
+        · exact e
+      simp only [List.map_cons, List.sum_cons, h2 x hx]
+      have := ih hnd'.2 hvx
+      omega
+
 def w1 (N : Nat) (s : FSt n) (v : Fin n) : Nat := (N - s.c v) + (N - s.f v) + (if s.term v then 0 else 1)
-def w2 (N : Nat) (s : FSt n) (v w : Fin n) : Nat := (N - s.s v w) + (N - s.r v w)
-def row (N : Nat) (s : FSt n) (v : Fin n) : Nat := ((List.finRange n).map (w2 N s v)).sum
-def fmu (N : Nat) (s : FSt n) : Nat :=
-  ((List.finRange n).map (w1 N s)).sum + ((List.finRange n).map (row N s)).sum
+def w2 (N : Nat) (s : FSt n) (w : Fin n) (i : Nat) : Nat := (N - s.s w i) + (N - s.r w i)
+def row (net : Net n) (N : Nat) (s : FSt n) (w : Fin n) : Nat :=
+  ((List.range (net.ins w).length).map (w2 N s w)).sum
+def fmu (net : Net n) (N : Nat) (s : FSt n) : Nat :=
+  ((List.finRange n).map (w1 N s)).sum + ((List.finRange n).map (row net N s)).sum
+
+/-- number of connections -/
+def ports (net : Net n) : Nat := ((List.finRange n).map fun w => (net.ins w).length).sum
+
+theorem row_dec (net : Net n) (N : Nat) (s s' : FSt n) (w : Fin n) (i : Nat) (hi : i < (net.ins w).length)
+    (h1 : w2 N s' w i + 1 = w2 N s w i) (h2 : ∀ w' i', ¬(w' = w ∧ i' = i) → w2 N s' w' i' = w2 N s w' i') :
+    ((List.finRange n).map (row net N s')).sum + 1 = ((List.finRange n).map (row net N s)).sum := by
+  apply sum_upd _ (List.nodup_finRange n) _ _ w (List.mem_finRange w)
+  · unfold row
+    apply sum_updN _ List.nodup_range _ _ i (List.mem_range.2 hi) h1
+    intro j hj
+    exact h2 w j (by intro he; exact hj he.2)
+  · intro x hx
+    unfold row
+    apply congrArg
+    apply List.map_congr_left
+    intro j _
+    exact h2 x j (by intro he; exact hx he.1)
 
 theorem fstep_mu (net : Net n) (N : Nat) (hbal : balanced net N) (s s' : FSt n) (l : FLbl n)
-    (h : FInv net N s) (hs : fstep net s l = some s') : fmu N s' + 1 = fmu N s := by
+    (h : FInv net N s) (hs : fstep net s l = some s') : fmu net N s' + 1 = fmu net N s := by
   have h' := fstep_inv net N hbal s s' l h hs
   unfold fmu
   cases l with
-  | recv w u =>
+  | recv w i =>
     simp only [fstep] at hs
     split at hs
     · rename_i hg
       simp only [Option.some.injEq] at hs; subst hs
-      obtain ⟨hu, _, hrc, hrs⟩ := hg
-      have h1 : (List.finRange n).map (w1 N { s with r := upd2 s.r u w (s.r u w + 1) }) = (List.finRange n).map (w1 N s) := rfl
-      rw [h1]
-      have h2 : ((List.finRange n).map (row N { s with r := upd2 s.r u w (s.r u w + 1) })).sum + 1 =
-          ((List.finRange n).map (row N s)).sum := by
-        apply sum_upd _ (List.nodup_finRange n) _ _ u (List.mem_finRange u)
-        · unfold row
-          apply sum_upd _ (List.nodup_finRange n) _ _ w (List.mem_finRange w)
-          · simp only [w2, upd2_same]
-            have := h.sf u w hu; have := h.cN u
-            omega
-          · intro x hx
-            simp only [w2]
-            rw [upd2_other _ _ _ _ _ _ (by intro he; exact hx he.2)]
-        · intro x hx
-          unfold row
-          apply congrArg
-          apply List.map_congr_left
-          intro y _
-          simp only [w2]
-          rw [upd2_other _ _ _ _ _ _ (by intro he; exact hx he.1)]
+      obtain ⟨hi, _, hrc, hrs⟩ := hg
+      have e1 : (List.finRange n).map (w1 N { s with r := upd2 s.r w i (s.r w i + 1) }) = (List.finRange n).map (w1 N s) := rfl
+      rw [e1]
+      have e2 := row_dec net N s { s with r := upd2 s.r w i (s.r w i + 1) } w i hi
+        (by
+          simp only [w2, upd2_same]
+          obtain ⟨u, hu⟩ := sender_of_lt net w i hi
+          have := h.sf w i u hu; have := h.cN u
+          omega)
+        (by intro w' i' hne; simp only [w2, upd2_other _ _ _ _ _ _ hne])
       omega
     · simp at hs
   | create v =>
     simp only [fstep] at hs
     split at hs
     · simp only [Option.some.injEq] at hs; subst hs
-      have h2 : (List.finRange n).map (row N { s with c := upd s.c v (s.c v + 1) }) = (List.finRange n).map (row N s) := rfl
-      rw [h2]
-      have h1 : ((List.finRange n).map (w1 N { s with c := upd s.c v (s.c v + 1) })).sum + 1 =
+      have e2 : (List.finRange n).map (row net N { s with c := upd s.c v (s.c v + 1) }) = (List.finRange n).map (row net N s) := rfl
+      rw [e2]
+      have e1 : ((List.finRange n).map (w1 N { s with c := upd s.c v (s.c v + 1) })).sum + 1 =
           ((List.finRange n).map (w1 N s)).sum := by
         apply sum_upd _ (List.nodup_finRange n) _ _ v (List.mem_finRange v)
         · have := h'.cN v; simp only [upd_same] at this
@@ -538,32 +622,22 @@ theorem fstep_mu (net : Net n) (N : Nat) (hbal : balanced net N) (s s' : FSt n) 
         · intro w hw; simp [w1, upd_other _ _ _ _ hw]
       omega
     · simp at hs
-  | send v w =>
+  | send w i =>
     simp only [fstep] at hs
     split at hs
     · rename_i hg
       simp only [Option.some.injEq] at hs; subst hs
-      obtain ⟨hv, hfc, hsf, hroom⟩ := hg
-      have h1 : (List.finRange n).map (w1 N { s with s := upd2 s.s v w (s.s v w + 1) }) = (List.finRange n).map (w1 N s) := rfl
-      rw [h1]
-      have h2 : ((List.finRange n).map (row N { s with s := upd2 s.s v w (s.s v w + 1) })).sum + 1 =
-          ((List.finRange n).map (row N s)).sum := by
-        apply sum_upd _ (List.nodup_finRange n) _ _ v (List.mem_finRange v)
-        · unfold row
-          apply sum_upd _ (List.nodup_finRange n) _ _ w (List.mem_finRange w)
-          · simp only [w2, upd2_same]
-            have := h.cN v
-            omega
-          · intro x hx
-            simp only [w2]
-            rw [upd2_other _ _ _ _ _ _ (by intro he; exact hx he.2)]
-        · intro x hx
-          unfold row
-          apply congrArg
-          apply List.map_congr_left
-          intro y _
-          simp only [w2]
-          rw [upd2_other _ _ _ _ _ _ (by intro he; exact hx he.1)]
+      obtain ⟨v, hv⟩ := canSend_sender net s w i hg
+      obtain ⟨hfc, hsf, hroom⟩ := (canSend_iff net s w i v hv).1 hg
+      have hi := sender_lt net w i v hv
+      have e1 : (List.finRange n).map (w1 N { s with s := upd2 s.s w i (s.s w i + 1) }) = (List.finRange n).map (w1 N s) := rfl
+      rw [e1]
+      have e2 := row_dec net N s { s with s := upd2 s.s w i (s.s w i + 1) } w i hi
+        (by
+          simp only [w2, upd2_same]
+          have := h.cN v
+          omega)
+        (by intro w' i' hne; simp only [w2, upd2_other _ _ _ _ _ _ hne])
       omega
     · simp at hs
   | forward v =>
@@ -571,9 +645,9 @@ theorem fstep_mu (net : Net n) (N : Nat) (hbal : balanced net N) (s s' : FSt n) 
     split at hs
     · rename_i hg
       simp only [Option.some.injEq] at hs; subst hs
-      have h2 : (List.finRange n).map (row N { s with f := upd s.f v (s.f v + 1) }) = (List.finRange n).map (row N s) := rfl
-      rw [h2]
-      have h1 : ((List.finRange n).map (w1 N { s with f := upd s.f v (s.f v + 1) })).sum + 1 =
+      have e2 : (List.finRange n).map (row net N { s with f := upd s.f v (s.f v + 1) }) = (List.finRange n).map (row net N s) := rfl
+      rw [e2]
+      have e1 : ((List.finRange n).map (w1 N { s with f := upd s.f v (s.f v + 1) })).sum + 1 =
           ((List.finRange n).map (w1 N s)).sum := by
         apply sum_upd _ (List.nodup_finRange n) _ _ v (List.mem_finRange v)
         · simp only [w1, upd_same]
@@ -587,9 +661,9 @@ theorem fstep_mu (net : Net n) (N : Nat) (hbal : balanced net N) (s s' : FSt n) 
     split at hs
     · rename_i hg
       simp only [Option.some.injEq] at hs; subst hs
-      have h2 : (List.finRange n).map (row N { s with term := upd s.term v true }) = (List.finRange n).map (row N s) := rfl
-      rw [h2]
-      have h1 : ((List.finRange n).map (w1 N { s with term := upd s.term v true })).sum + 1 =
+      have e2 : (List.finRange n).map (row net N { s with term := upd s.term v true }) = (List.finRange n).map (row net N s) := rfl
+      rw [e2]
+      have e1 : ((List.finRange n).map (w1 N { s with term := upd s.term v true })).sum + 1 =
           ((List.finRange n).map (w1 N s)).sum := by
         apply sum_upd _ (List.nodup_finRange n) _ _ v (List.mem_finRange v)
         · simp [w1, hg.1]
@@ -598,7 +672,7 @@ theorem fstep_mu (net : Net n) (N : Nat) (hbal : balanced net N) (s s' : FSt n) 
     · simp at hs
 
 theorem frun_mu (net : Net n) (N : Nat) (hbal : balanced net N) (ls : List (FLbl n)) :
-    ∀ s s', FInv net N s → frun net s ls = some s' → fmu N s' + ls.length = fmu N s := by
+    ∀ s s', FInv net N s → frun net s ls = some s' → fmu net N s' + ls.length = fmu net N s := by
   induction ls with
   | nil => intro s s' _ hr; simp [frun] at hr; subst hr; simp
   | cons l ls ih =>
@@ -612,40 +686,57 @@ theorem frun_mu (net : Net n) (N : Nat) (hbal : balanced net N) (ls : List (FLbl
       simp only [List.length_cons]
       omega
 
-theorem fmu_init (N : Nat) : fmu N (finit n) = n * (2 * N + 1) + n * (n * (2 * N)) := by
+theorem sum_map_mul {α : Type} (l : List α) (g : α → Nat) (k : Nat) : (l.map fun x => g x * k).sum = (l.map g).sum * k := by
+  induction l with
+  | nil => simp
+  | cons x xs ih => simp only [List.map_cons, List.sum_cons, ih, Nat.add_mul]
+
+theorem fmu_init (net : Net n) (N : Nat) : fmu net N (finit n) = n * (2 * N + 1) + ports net * (2 * N) := by
   unfold fmu
   have e1 : (List.finRange n).map (w1 N (finit n)) = (List.finRange n).map (fun _ => 2 * N + 1) := by
     apply List.map_congr_left
     intro v _
     simp [w1, finit]; omega
-  have e2 : (List.finRange n).map (row N (finit n)) = (List.finRange n).map (fun _ => n * (2 * N)) := by
+  have e2 : (List.finRange n).map (row net N (finit n)) = (List.finRange n).map (fun w => (net.ins w).length * (2 * N)) := by
     apply List.map_congr_left
-    intro v _
+    intro w _
     unfold row
-    have : (List.finRange n).map (w2 N (finit n) v) = (List.finRange n).map (fun _ => 2 * N) := by
+    have : (List.range (net.ins w).length).map (w2 N (finit n) w) = (List.range (net.ins w).length).map (fun _ => 2 * N) := by
       apply List.map_congr_left
-      intro w _
+      intro i _
       simp [w2, finit]; omega
     rw [this, sum_const]; simp
-  rw [e1, e2, sum_const, sum_const]; simp
+  rw [e1, e2, sum_const, sum_map_mul]; simp [ports]
 
 theorem fstuck_iff (net : Net n) (s : FSt n) : fstuckB net s = true ↔ fstuck net s := by
-  unfold fstuckB fstuck allFLbls
+  unfold fstuckB fstuck
   rw [List.all_eq_true]
   constructor
   · intro h l
-    have hm : l ∈ (List.finRange n).flatMap fun v =>
-        [FLbl.create v, FLbl.forward v, FLbl.terminate v] ++ (List.finRange n).flatMap fun w => [FLbl.recv v w, FLbl.send v w] := by
-      rw [List.mem_flatMap]
+    by_cases hm : l ∈ allFLbls net
+    · have := h l hm; simpa using this
+    · -- a label outside the list names a connection that does not exist: never enabled
       cases l with
-      | recv w u => exact ⟨w, List.mem_finRange w, by simp⟩
-      | create v => exact ⟨v, List.mem_finRange v, by simp⟩
-      | send v w => exact ⟨v, List.mem_finRange v, by simp⟩
-      | forward v => exact ⟨v, List.mem_finRange v, by simp⟩
-      | terminate v => exact ⟨v, List.mem_finRange v, by simp⟩
-    have := h l hm
-    simpa using this
+      | recv w i =>
+        have hi : ¬ i < (net.ins w).length := by
+          intro hi; apply hm
+          unfold allFLbls
+          rw [List.mem_flatMap]
+          exact ⟨w, List.mem_finRange w, by simp [hi]⟩
+        simp [fstep, canRecv, hi]
+      | create v => exact absurd (by unfold allFLbls; rw [List.mem_flatMap]; exact ⟨v, List.mem_finRange v, by simp⟩) hm
+      | send w i =>
+        have hi : ¬ i < (net.ins w).length := by
+          intro hi; apply hm
+          unfold allFLbls
+          rw [List.mem_flatMap]
+          exact ⟨w, List.mem_finRange w, by simp [hi]⟩
+        have hs : sender net w i = none := by
+          unfold sender; exact List.getElem?_eq_none (by omega)
+        simp [fstep, canSend, hs]
+      | forward v => exact absurd (by unfold allFLbls; rw [List.mem_flatMap]; exact ⟨v, List.mem_finRange v, by simp⟩) hm
+      | terminate v => exact absurd (by unfold allFLbls; rw [List.mem_flatMap]; exact ⟨v, List.mem_finRange v, by simp⟩) hm
   · intro h l _
     simp [h l]
 
-end SciVerif.NetFine
+end SciVerif.NetPorts
